@@ -29,12 +29,17 @@ func main() {
 	dh.Source(r)
 	dh.AppendOptionsCases(r, 1500)
 	dh.Corpus(r)
+	dh.RoleSweep(r, 0, 2, false, true)
+	dh.RoleSweep(r, 0, 2, true, false)
 	dh.CfgGrid(r)
 	dh.Generate(r, 2, []int{1, 2, 3}, dh.NCfg)
 	if r.Thorough() {
 		dh.PrlSweep(r, 3, 4)
 		dh.Exhaustive(r, "hist", 2, 4, 16)
 		dh.Exhaustive(r, "histf", 3, 5, 8)
+		dh.RoleSweep(r, 0, 1, true, true)
+		dh.RoleSweep(r, 0, 3, false, false)
+		dh.RoleSweep(r, 4, 3, true, false)
 	} else {
 		dh.PrlSweep(r, 3, 3)
 		dh.Exhaustive(r, "hist", 3, 3, 16)
